@@ -34,6 +34,14 @@ type c04Pair struct {
 	app, id     uint64
 	base, quote string
 	last, batch uint64
+	lastPrice   string // pair.LastPrice as raw 10^-18 integer, "-" when nil
+}
+
+func c04LastPrice(pr liqtypes.Pair) string {
+	if pr.LastPrice == nil {
+		return "-"
+	}
+	return pr.LastPrice.BigInt().String()
 }
 type c04Pool struct {
 	app, id, pair    uint64
@@ -227,9 +235,10 @@ func c04NewEnv(t *testing.T, tr *Trace, rng *Rng, prop string, variant int) *c04
 	for _, a := range e.apps {
 		p, _ := e.k.GetGenericParams(e.ctx, a)
 		e.feeRate[a] = p.SwapFeeRate
-		acfg = append(acfg, fmt.Sprintf("%d:%s:%d:%d:%s:%s:%s:%s:%d", a, p.SwapFeeRate.BigInt().String(), p.BatchSize,
+		acfg = append(acfg, fmt.Sprintf("%d:%s:%d:%d:%s:%s:%s:%s:%d:%d:%s:%d", a, p.SwapFeeRate.BigInt().String(), p.BatchSize,
 			int64(p.MaxOrderLifespan/time.Second), p.PairCreationFee.AmountOf("ucmdx"), p.PoolCreationFee.AmountOf("ucmdx"),
-			p.MinInitialDepositAmount, p.MinInitialPoolCoinSupply, p.MaxNumActivePoolsPerPair))
+			p.MinInitialDepositAmount, p.MinInitialPoolCoinSupply, p.MaxNumActivePoolsPerPair,
+			p.TickPrecision, p.MaxPriceLimitRatio.BigInt().String(), p.MaxNumMarketMakingOrderTicks))
 		if len(p.PairCreationFee) != 1 || len(p.PoolCreationFee) != 1 {
 			t.Fatal("creation fee denoms")
 		}
@@ -277,7 +286,7 @@ func (e *c04Env) project() *c04Proj {
 		accts[fmt.Sprintf("du%d", a)] = liqtypes.DeriveDustCollectorAddress(a)
 		accts[fmt.Sprintf("fc%d", a)] = liqtypes.DeriveFeeCollectorAddress(a)
 		for _, pr := range e.k.GetAllPairs(ctx, a) {
-			p.pairs = append(p.pairs, c04Pair{a, pr.Id, pr.BaseCoinDenom, pr.QuoteCoinDenom, pr.LastOrderId, pr.CurrentBatchId})
+			p.pairs = append(p.pairs, c04Pair{a, pr.Id, pr.BaseCoinDenom, pr.QuoteCoinDenom, pr.LastOrderId, pr.CurrentBatchId, c04LastPrice(pr)})
 			accts[fmt.Sprintf("pe%d.%d", a, pr.Id)] = pr.GetEscrowAddress()
 			accts[fmt.Sprintf("sf%d.%d", a, pr.Id)] = pr.GetSwapFeeCollectorAddress()
 		}
@@ -384,7 +393,7 @@ func (e *c04Env) state() {
 	}
 	sort.Strings(bal)
 	for _, x := range p.pairs {
-		pairs = append(pairs, fmt.Sprintf("%d:%d:%s:%s:%d:%d", x.app, x.id, e.dcode(x.base), e.dcode(x.quote), x.last, x.batch))
+		pairs = append(pairs, fmt.Sprintf("%d:%d:%s:%s:%d:%d:%s", x.app, x.id, e.dcode(x.base), e.dcode(x.quote), x.last, x.batch, x.lastPrice))
 	}
 	for _, x := range p.pools {
 		pools = append(pools, fmt.Sprintf("%d:%d:%d:%s:%s:%s:%d:%d", x.app, x.id, x.pair, c04b(x.ranged), c04b(x.disabled), x.ps, x.lastDep, x.lastWdr))
@@ -607,8 +616,16 @@ func (e *c04Env) endBlocker() {
 			}
 			du := fmt.Sprintf("du%d", a)
 			dust := cur.get(du, e.dcode(pr.quote)).Sub(prev.get(du, e.dcode(pr.quote)))
-			if len(fills[pr.id]) > 0 || len(flows[pr.id]) > 0 || !dust.IsZero() {
-				ms = append(ms, fmt.Sprintf("%d/%s/%s/%s", pr.id, strings.Join(fills[pr.id], ","), strings.Join(flows[pr.id], ","), dust))
+			lastChanged := false
+			for _, pp := range prev.pairs {
+				if pp.app == a && pp.id == pr.id && pp.lastPrice != pr.lastPrice {
+					lastChanged = true
+					e.tr.Count("batch:last_price_changed")
+				}
+			}
+			if len(fills[pr.id]) > 0 || len(flows[pr.id]) > 0 || !dust.IsZero() || lastChanged {
+				// the match price (pair.LastPrice after the batch) is an observed result of the matching engine (C05)
+				ms = append(ms, fmt.Sprintf("%d/%s/%s/%s/%s", pr.id, strings.Join(fills[pr.id], ","), strings.Join(flows[pr.id], ","), dust, pr.lastPrice))
 				e.tr.Count("batch:matched")
 			}
 			for _, pp := range prev.pairs {
@@ -752,7 +769,8 @@ func (e *c04Env) withdraw(app uint64, ui int, poolID uint64, pc sdkmath.Int, wro
 	e.emit("lq.withdraw", out, u(app), strconv.Itoa(ui), u(poolID), pc.String(), c04b(!wrongDenom))
 }
 
-// order places a limit (typ 1) or market (typ 2) order.
+// order places a limit (typ 1) or market (typ 2) order.  Only the message is emitted: the tick-fitted price and the price /
+// denom validations are computed by the Lean model from the message, the app's parameters and the pair's last price.
 func (e *c04Env) order(app uint64, ui int, pairID uint64, typ int, buy bool, msgOffer sdkmath.Int, msgPrice sdkmath.LegacyDec, amt sdkmath.Int, lifespan int64, swapDenoms bool) {
 	pr, found := e.pair(app, pairID)
 	od, dd := "ucoina", "ucoinb"
@@ -763,90 +781,89 @@ func (e *c04Env) order(app uint64, ui int, pairID uint64, typ int, buy bool, msg
 			od, dd = pr.BaseCoinDenom, pr.QuoteCoinDenom
 		}
 	}
-	ext := true
-	if swapDenoms {
+	switch {
+	case swapDenoms:
 		od, dd = dd, od
-		ext = false
+		e.tr.Count("order:denoms=swapped")
+	case found && e.rng.Chance(1):
+		dd = "ucoine" // a demand denom that is not in the pair (coin index 5 is in no pair of the menu)
+		if dd == od {
+			dd = "ucmdx"
+		}
+		e.tr.Count("order:denoms=foreign_demand")
+	case found && e.rng.Chance(1):
+		od = dd // offer denom = demand denom: ValidateBasic
+		e.tr.Count("order:denoms=same")
 	}
 	dir := liqtypes.OrderDirectionSell
 	if buy {
 		dir = liqtypes.OrderDirectionBuy
 	}
-	price := msgPrice
 	var msg sdk.Msg
-	tp := e.tickPrec(app)
-	params, _ := e.k.GetGenericParams(e.ctx, app)
 	if typ == 1 {
 		msg = liqtypes.NewMsgLimitOrder(app, e.users[ui], pairID, dir, sdk.NewCoin(od, msgOffer), dd, msgPrice, amt, time.Duration(lifespan)*time.Second)
-		if found && msgPrice.IsPositive() {
+		if found && msgPrice.IsPositive() { // statistics only
 			lo, hi := e.priceLimits(app, pr)
-			if msgPrice.GT(hi) || msgPrice.LT(lo) {
-				ext = false
-			}
-			if buy {
-				price = amm.PriceToDownTick(msgPrice, tp)
-			} else {
-				price = amm.PriceToUpTick(msgPrice, tp)
+			tp := e.tickPrec(app)
+			switch {
+			case msgPrice.GT(hi):
+				e.tr.Count("order:price=above_limit")
+			case msgPrice.LT(lo):
+				e.tr.Count("order:price=below_limit")
+			case msgPrice.Equal(hi) || msgPrice.Equal(lo):
+				e.tr.Count("order:price=at_limit")
+			case amm.PriceToDownTick(msgPrice, tp).Equal(msgPrice):
+				e.tr.Count("order:price=on_tick")
+			default:
+				e.tr.Count("order:price=off_tick")
 			}
 		}
 	} else {
 		msg = liqtypes.NewMsgMarketOrder(app, e.users[ui], pairID, dir, sdk.NewCoin(od, msgOffer), dd, amt, time.Duration(lifespan)*time.Second)
 		msgPrice = sdkmath.LegacyZeroDec()
-		price = sdkmath.LegacyOneDec()
 		if found {
 			if pr.LastPrice == nil {
-				ext = false
-			} else if buy {
-				price = amm.PriceToDownTick(pr.LastPrice.Mul(sdkmath.LegacyOneDec().Add(params.MaxPriceLimitRatio)), tp)
+				e.tr.Count("order:market=no_last_price")
 			} else {
-				price = amm.PriceToUpTick(pr.LastPrice.Mul(sdkmath.LegacyOneDec().Sub(params.MaxPriceLimitRatio)), tp)
+				e.tr.Count("order:market=with_last_price")
 			}
 		}
 	}
 	out := e.deliver(msg)
-	e.emit("lq.order", out, u(app), strconv.Itoa(ui), u(pairID), strconv.Itoa(typ), c04b(buy), msgOffer.String(),
-		msgPrice.BigInt().String(), price.BigInt().String(), amt.String(), i64(lifespan), c04b(ext))
+	e.emit("lq.order", out, u(app), strconv.Itoa(ui), u(pairID), strconv.Itoa(typ), c04b(buy), e.dcode(od), e.dcode(dd), msgOffer.String(),
+		msgPrice.BigInt().String(), amt.String(), i64(lifespan))
 }
 
-func (e *c04Env) ticks(ts []liqtypes.MMOrderTick) string {
-	var ss []string
-	for _, t := range ts {
-		ss = append(ss, fmt.Sprintf("%s:%s:%s", t.OfferCoinAmount, t.Price.BigInt().String(), t.Amount))
-	}
-	return strings.Join(ss, ",")
-}
-
+// mmOrder delivers a MsgMMOrder.  Only the message is emitted: ValidateBasic, the on-tick / in-range validations and
+// MMOrderTicks are computed by the Lean model.
 func (e *c04Env) mmOrder(app uint64, ui int, pairID uint64, maxSell, minSell sdkmath.LegacyDec, sellAmt sdkmath.Int, maxBuy, minBuy sdkmath.LegacyDec, buyAmt sdkmath.Int, lifespan int64) {
 	msg := liqtypes.NewMsgMMOrder(app, e.users[ui], pairID, maxSell, minSell, sellAmt, maxBuy, minBuy, buyAmt, time.Duration(lifespan)*time.Second)
-	ext := msg.ValidateBasic() == nil
-	var buys, sells []liqtypes.MMOrderTick
-	if pr, found := e.pair(app, pairID); found && ext {
+	if pr, found := e.pair(app, pairID); found && msg.ValidateBasic() == nil { // statistics only
 		params, _ := e.k.GetGenericParams(e.ctx, app)
 		tp := int(params.TickPrecision)
 		lo, hi := e.priceLimits(app, pr)
 		on := func(p sdkmath.LegacyDec) bool { return amm.PriceToDownTick(p, tp).Equal(p) }
 		in := func(p sdkmath.LegacyDec) bool { return !p.LT(lo) && !p.GT(hi) }
-		if sellAmt.IsPositive() && !(on(minSell) && on(maxSell) && in(minSell) && in(maxSell)) {
-			ext = false
-		}
-		if buyAmt.IsPositive() && !(on(minBuy) && on(maxBuy) && in(minBuy) && in(maxBuy)) {
-			ext = false
-		}
-		if ext {
+		switch {
+		case sellAmt.IsPositive() && !(on(minSell) && on(maxSell)), buyAmt.IsPositive() && !(on(minBuy) && on(maxBuy)):
+			e.tr.Count("mmOrder:prices=off_tick")
+		case sellAmt.IsPositive() && !(in(minSell) && in(maxSell)), buyAmt.IsPositive() && !(in(minBuy) && in(maxBuy)):
+			e.tr.Count("mmOrder:prices=out_of_range")
+		default:
 			n := int(params.MaxNumMarketMakingOrderTicks)
+			k := 0
 			if buyAmt.IsPositive() {
-				buys = liqtypes.MMOrderTicks(liqtypes.OrderDirectionBuy, minBuy, maxBuy, buyAmt, n, tp)
+				k += len(liqtypes.MMOrderTicks(liqtypes.OrderDirectionBuy, minBuy, maxBuy, buyAmt, n, tp))
 			}
 			if sellAmt.IsPositive() {
-				sells = liqtypes.MMOrderTicks(liqtypes.OrderDirectionSell, minSell, maxSell, sellAmt, n, tp)
+				k += len(liqtypes.MMOrderTicks(liqtypes.OrderDirectionSell, minSell, maxSell, sellAmt, n, tp))
 			}
+			e.tr.Count(fmt.Sprintf("mmOrder:ticks=%d", k))
 		}
 	}
 	out := e.deliver(msg)
-	if !ext {
-		buys, sells = []liqtypes.MMOrderTick{{OfferCoinAmount: sdkmath.OneInt(), Price: sdkmath.LegacyOneDec(), Amount: sdkmath.OneInt()}}, nil
-	}
-	e.emit("lq.mmOrder", out, u(app), strconv.Itoa(ui), u(pairID), e.ticks(buys), e.ticks(sells), i64(lifespan), c04b(ext))
+	e.emit("lq.mmOrder", out, u(app), strconv.Itoa(ui), u(pairID), maxSell.BigInt().String(), minSell.BigInt().String(), sellAmt.String(),
+		maxBuy.BigInt().String(), minBuy.BigInt().String(), buyAmt.String(), i64(lifespan))
 }
 
 func (e *c04Env) cancel(app uint64, ui int, pairID, id uint64) {
@@ -1037,6 +1054,31 @@ func (e *c04Env) genLimit(tiny bool) {
 	if !price.IsPositive() {
 		price = sdkmath.LegacyNewDecWithPrec(1, 3)
 	}
+	if pr, found := e.pair(app, pairID); found && pr.LastPrice != nil && e.rng.Chance(10) {
+		// boundary-directed: exactly the price limits, one tick / one raw unit beyond and inside
+		lo, hi := e.priceLimits(app, pr)
+		tp := e.tickPrec(app)
+		ulp := sdkmath.LegacySmallestDec()
+		switch e.rng.Intn(8) {
+		case 0:
+			price = hi
+		case 1:
+			price = lo
+		case 2:
+			price = hi.Add(ulp)
+		case 3:
+			price = lo.Sub(ulp)
+		case 4:
+			price = amm.UpTick(hi, tp)
+		case 5:
+			price = amm.DownTick(lo, tp)
+		case 6:
+			price = hi.Sub(ulp)
+		case 7:
+			price = lo.Add(ulp)
+		}
+		e.tr.Count("order:price_boundary")
+	}
 	amt := e.amount()
 	if tiny {
 		amt = amt.MulRaw(int64(1 + e.rng.Intn(40)))
@@ -1137,6 +1179,24 @@ func (e *c04Env) genMM() {
 		maxSell = pct(1500) // out of range
 	case 4:
 		minBuy = minBuy.Add(sdkmath.LegacyNewDecWithPrec(1, 12)) // off tick
+	case 5:
+		maxSell = amm.UpTick(amm.UpTick(minSell, tp), tp) // two ticks apart: the tick walk produces consecutive duplicates
+		minBuy = amm.DownTick(maxBuy, tp)                  // adjacent ticks
+	case 6:
+		if pr, found := e.pair(app, pairID); found && pr.LastPrice != nil {
+			lo, hi := e.priceLimits(app, pr)
+			switch e.rng.Intn(4) {
+			case 0:
+				maxSell = hi // exactly the upper limit
+			case 1:
+				maxSell = amm.UpTick(hi, tp) // one tick beyond
+			case 2:
+				minBuy = lo
+			case 3:
+				minBuy = amm.DownTick(lo, tp)
+			}
+			e.tr.Count("mmOrder:price_boundary")
+		}
 	}
 	e.mmOrder(app, ui, pairID, maxSell, minSell, sellAmt, maxBuy, minBuy, buyAmt, e.lifespan(app))
 }
